@@ -35,7 +35,7 @@ type Job struct {
 	Keep   bool            `json:"keep,omitempty"`  // keep the run directory
 	Source bool            `json:"source,omitempty"`
 	// WarnOnly: the last step differs from the first only by statements that are accepted with a warning ("todo" faults);
-	// if the first call delivers no error the last must not deliver one either (C07: warnings alone never fail a compilation)
+	// the first and the last call must agree on whether the compilation failed (C07: warnings alone never fail a compilation, and a warning never stands in for an error)
 	WarnOnly bool `json:"warn_only,omitempty"`
 }
 
